@@ -558,6 +558,27 @@ func genEdgeShapes(w *caseWriter, st *pkgStats) int {
 			{Source: "src/f1", Destination: "/opt/livelink/file"}}
 		emit("symlink-targets-that-exist-on-the-build-host", c, nil)
 	}
+	// names on disk that are not valid UTF-8 (Latin-1, a truncated sequence), reached through a tree and a pattern; a
+	// percent sign in the name of a configuration file
+	c = baseConfig("rawbytes")
+	rawb := []extraFile{{Path: "src/raw/caf\xe9.txt", Hex: hex.EncodeToString([]byte("latin-1 name")), Mode: 0o644, MTime: 1650000500},
+		{Path: "src/raw/trunc\xe2\x82.bin", Hex: hex.EncodeToString([]byte("truncated sequence")), Mode: 0o644, MTime: 1650000500},
+		{Path: "src/raw/limits-100%.conf", Hex: hex.EncodeToString([]byte("percent")), Mode: 0o644, MTime: 1650000500},
+		{Path: "src/raw/link\xff", Link: "caf\xe9.txt"}}
+	c.Contents = files.Contents{{Source: "src/raw", Destination: "/opt/raw-tree", Type: files.TypeTree}, {Source: "src/raw/*", Destination: "/etc/raw/", Type: files.TypeConfigNoReplace},
+		{Source: "src/f1", Destination: "/etc/raw/50%-more.conf", Type: files.TypeConfig}}
+	emit("names-that-are-not-utf8-and-percent-signs", c, rawb)
+	// a symbolic link entry whose destination is written with a trailing slash: the link is AT that path
+	c = baseConfig("linkslash")
+	c.Contents = files.Contents{{Source: "/usr/lib/app/tool", Destination: "/opt/linkslash/bin/", Type: files.TypeSymlink}, {Source: "src/f1", Destination: "/opt/linkslash/other"}}
+	emit("symlink-destination-with-trailing-slash", c, nil)
+	// an entry listed before a tree at a place where the tree has a directory with content: one of them has to go
+	c = baseConfig("overtree")
+	c.Contents = files.Contents{{Source: "releases/1", Destination: "/opt/overtree/sub", Type: files.TypeSymlink}, {Source: "src/d", Destination: "/opt/overtree", Type: files.TypeTree}}
+	emit("symlink-where-a-later-tree-has-a-directory", c, nil)
+	c = baseConfig("overtree2")
+	c.Contents = files.Contents{{Source: "src/f1", Destination: "/opt/overtree2/sub"}, {Source: "src/d", Destination: "/opt/overtree2", Type: files.TypeTree}}
+	emit("file-where-a-later-tree-has-a-directory", c, nil)
 	c = baseConfig("nodate")
 	c.Changelog = "changelog.yaml"
 	c.Contents = files.Contents{{Source: "src/f1", Destination: "/usr/bin/nodate"}}
